@@ -66,6 +66,7 @@ func Load(lc LoadConfig) (*Shared, error) {
 	}
 	sh.errorT = typesPointer(we.Type())
 	sh.errorIface = universeError()
+	errTypeForGlobals = sh.errorT
 	if yp := sh.Pkgs["gopkg.in/yaml.v3"]; yp != nil {
 		if n := yp.Type("Node"); n != nil {
 			sh.yamlNodeT, _ = n.Type().Underlying().(*types.Struct)
@@ -338,6 +339,10 @@ func (m *Machine) RunPath(pkg *ssa.Package, hfn *ssa.Function, prefix []int32, w
 					res.Status = "inconclusive"
 					res.Reason = "unexpected " + r.msg
 				}
+			case "exec":
+				res.Status = "ok"
+				res.Asserts++
+				res.Discharged++
 			case "outside":
 				res.Status = "outside"
 				res.Reason = r.msg
